@@ -28,6 +28,38 @@ theorem mem_cartesian : ∀ (Ts : List Table) (tup : List Row),
       cases h with
       | cons h1 h2 => exact ⟨_, h1, _, (mem_cartesian rest _).2 h2, rfl⟩
 
+/-! ### fewer than two structures: no pair of tables, no ON clause -/
+
+theorem onClause_short (m : List StdCol) : ∀ (tup : List Row), tup.length < 2 → onClause m tup = true
+  | [], _ => rfl
+  | [r], _ => by simp [onClause]
+  | _ :: _ :: _, h => by simp at h; omega
+
+/-- with fewer than two structures the joined tuples do not depend on the match attributes -/
+theorem joinRows_lt2 (m m' : List StdCol) (Ts : List Table) (h : Ts.length < 2) : joinRows m Ts = joinRows m' Ts := by
+  unfold joinRows
+  apply List.filter_congr
+  intro tup htup
+  have hl : tup.length = Ts.length := ((mem_cartesian Ts tup).1 htup).length_eq
+  rw [onClause_short m tup (by omega), onClause_short m' tup (by omega)]
+
+/-- known match attributes: `matchCols` answers with attributes that give the same joined tuples (the attributes themselves with two
+    or more structures; none with fewer, where no ON clause is emitted) -/
+theorem matchCols_some (db : Db) (mnames : List Py.Str) (m : List StdCol) (hm : mnames.mapM matchCol = some m) :
+    ∃ m', matchCols db mnames = some m' ∧ joinRows m' (db.tabs.map (·.rows)) = joinRows m (db.tabs.map (·.rows)) := by
+  unfold matchCols
+  by_cases h : db.tabs.length < 2
+  · exact ⟨[], by simp [h], joinRows_lt2 _ _ _ (by simpa using h)⟩
+  · exact ⟨m, by simp [h, hm], rfl⟩
+
+theorem matchCols_ge2 (db : Db) (mnames : List Py.Str) (h : 2 ≤ db.tabs.length) : matchCols db mnames = mnames.mapM matchCol := by
+  unfold matchCols
+  rw [if_neg (by omega)]
+
+theorem matchCols_lt2 (db : Db) (mnames : List Py.Str) (h : db.tabs.length < 2) : matchCols db mnames = some [] := by
+  unfold matchCols
+  rw [if_pos h]
+
 /-- SQL `=` on two cells of the same standard column is equality of the values -/
 theorem cmpEq_std (c : StdCol) (r r' : Row) : cmpEq (r.std c) (r'.std c) = true ↔ r.std c = r'.std c := by
   cases c <;> simp [Row.std, cmpEq]
